@@ -974,8 +974,26 @@ func (j *c12Judge) failOnce(root, initial string, target fsx.Op) {
 	}
 }
 
-func TestVerif_C12(t *testing.T) {
+// faultsBallast keeps the garbage collector's heap goal high enough that the
+// two 16 MiB posting tables every shard build allocates are recycled from
+// resident memory instead of being returned to the OS and faulted in again
+// (page faults dominated the run time otherwise). It is never touched, so it
+// costs address space only.
+var faultsBallast []byte
+
+func faultsSetup() {
 	log.SetOutput(io.Discard)
+	if faultsBallast == nil {
+		mb := 256
+		if v := os.Getenv("VERIF_BALLAST_MB"); v != "" {
+			fmt.Sscan(v, &mb)
+		}
+		faultsBallast = make([]byte, mb<<20)
+	}
+}
+
+func TestVerif_C12(t *testing.T) {
+	faultsSetup()
 	rec := kit.Open(t, "C12",
 		"rapid-generated (old index, new build): old/new shard counts in {1,2,3}^2 forced by ShardMax, full builds, delta builds with file tombstones and branch-version changes, metadata-only delta builds, old shards with and without .meta sidecars, full builds replacing a member of a compound shard (ShardMerging), Parallelism 1 or 4. One evaluation = one judged crash point (directory snapshot before one intercepted mutating operation of the build) or one judged fail point (re-run with one rename/remove/temp-file creation failing with EIO). Non-trivial = old and new signature differ and the build has >= 2 crash points; distinct by hash of (case, operation identity).",
 		"only system calls made through package os in index/builder.go, index/tombstones.go, index/merge.go are crash/fail points; writes through *os.File are covered by the invariant that final-name files change only through intercepted renames",
